@@ -520,3 +520,53 @@ MUTANTS += [
                     parser->error_flags = BINSON_ERROR_MAX_DEPTH_ARRAY;''')],
      'expect': {'C08': 'ORIG-ERR', 'C02': 'C02(c)'}},
 ]
+
+# ---- seeds whose patch no longer applies after the F3 fix rewrote _cmp_name, ported to the current body ----------------------
+_CMP_BODY = '''    int r = memcmp(a->bptr,
+                   b->bptr,
+                   MIN(a->bsize, b->bsize));
+
+    if (r != 0) {
+        return r;
+    }
+
+    /* Equal prefix: order by length. (The size_t difference does not fit an int.) */
+    if (a->bsize == b->bsize) {
+        return 0;
+    }
+
+    return (a->bsize < b->bsize) ? -1 : 1;
+}'''
+MUTANTS += [
+    {'name': 'seed_c02_cmp_name_empty_ported', 'edits': [(P, _CMP_BODY, '''    size_t n = MIN(a->bsize, b->bsize);
+    int r = 0;
+
+    if (n > 0) {
+        r = memcmp(a->bptr, b->bptr, n);
+        if (0 == r) {
+            r = (a->bsize > b->bsize) - (a->bsize < b->bsize);
+        }
+    }
+
+    return r;
+}''')],
+     'expect': {'C02': '_cmp_name can answer'}},
+    {'name': 'seed_c18_cmp_name_signed_char_ported', 'edits': [(P, _CMP_BODY, '''    const char *pa = (const char *) a->bptr;
+    const char *pb = (const char *) b->bptr;
+    size_t n = MIN(a->bsize, b->bsize);
+    size_t i;
+
+    for (i = 0; i < n; i++) {
+        if (pa[i] != pb[i]) {
+            return (pa[i] < pb[i]) ? -1 : 1;
+        }
+    }
+
+    if (a->bsize == b->bsize) {
+        return 0;
+    }
+
+    return (a->bsize < b->bsize) ? -1 : 1;
+}''')],
+     'expect': {'C18': 'char'}},
+]
